@@ -44,7 +44,8 @@ def _rx_str(rx):
 def rule_R1(ctx, prj: Project):
     ctx.rule("R1", "the automaton fragment wired by each Operator.apply denotes the operator's regular language over "
                    "its operands as black boxes (language equality by DFA equivalence; any rewiring that keeps the "
-                   "language passes), and expression_to_nfa concatenates list items left to right", floor=7)
+                   "language passes) and re-establishes the invariants that reading relies on (no edge enters the "
+                   "result's start, none leaves its accepting state), and expression_to_nfa concatenates list items left to right", floor=7)
     base = prj.cls(f"{GSM}.operator.Operator:Operator")
     subs = {c.name: c for c in base.all_subclasses()}
     missing = set(SPEC) - set(subs)
@@ -58,6 +59,7 @@ def rule_R1(ctx, prj: Project):
         labels = _labels(rx)
         want = regex_dfa(rx, labels)
         bad = None
+        inv_bad = None
         for choice, frag in frags:
             used = set(frag.labels)
             diff = dfa_difference(frag.dfa(), want, labels | used)
@@ -66,6 +68,17 @@ def rule_R1(ctx, prj: Project):
                 bad = (choice, diff)
             else:
                 ctx.discharged += 1
+            br = frag.invariant_breaches()
+            ctx.obligations += 1
+            if br:
+                inv_bad = br
+            else:
+                ctx.discharged += 1
+        if inv_bad:
+            ctx.viol("R1", f"{name}.apply/invariant", fi.site(),
+                     f"{name}.apply returns an automaton that breaks the construction's invariant ({'; '.join(inv_bad)}): "
+                     f"operators that wrap it add edges to these states, so nested patterns accept wrong words "
+                     f"(e.g. a repetition whose body begins with a repetition)")
         if bad:
             choice, w = bad
             ctx.viol("R1", f"{name}.apply", fi.site(),
@@ -168,19 +181,31 @@ def rule_R2(ctx, prj: Project):
         if rec_calls:
             n += 1
             bad = None
+            memo_bad = None
             for c in rec_calls:
                 gs = _membership_guard(fi, c)
                 ok = False
                 for elem, coll in gs:
                     adds = [x for x in fi.calls() if isinstance(x.func, ast.Attribute) and x.func.attr in ("add", "append")
                             and unparse(x.func.value) == coll and x.args and unparse(x.args[0]) == elem]
+                    adds += [x for x in fi.walk() if isinstance(x, ast.Assign) and any(
+                        isinstance(t, ast.Subscript) and unparse(t.value) == coll and unparse(t.slice) == elem for t in x.targets)]
+                    memo = [r for r in fi.walk() if isinstance(r, ast.Return) and r.value is not None
+                            and isinstance(r.value, ast.Subscript) and unparse(r.value.value) == coll]
+                    if memo and adds:
+                        memo_bad = memo[0]
                     threaded = any(unparse(a) == coll for a in list(c.args) + [k.value for k in c.keywords])
                     coll_is_param = coll in fi.params()
                     if adds and threaded and coll_is_param:
                         ok = True
                 if not ok:
                     bad = c
-            if bad is not None:
+            if memo_bad is not None:
+                ctx.viol("R2", f"{key}/memoised-partial-result", fi.site(memo_bad),
+                         f"{key} caches a per-state result before it is complete and returns the cached value when the state is "
+                         f"met again ({unparse(memo_bad)}): on an epsilon cycle the caller receives a partial closure, so the "
+                         f"subset construction loses transitions (repetitions of nullable patterns)")
+            elif bad is not None:
                 ctx.viol("R2", f"{key}/recursion", fi.site(bad),
                          f"{key} recurses along automaton edges ({unparse(bad)[:70]}) without a visited guard that is "
                          f"tested, extended and passed down: unbounded recursion on any epsilon cycle "
@@ -273,14 +298,29 @@ def rule_R4(ctx, prj: Project):
                    "move collects targets of transitions whose symbol == the given one; sets are identified by "
                    "state_set_id", floor=5)
     fi = prj.func(f"{GSM}.Expression:nfa_to_dfa")
-    src_terms = {unparse(expand(fi, n)) for n in fi.walk() if isinstance(n, ast.expr)}
+
+    def closure_like(call) -> bool:
+        """a call of a project function that (transitively) follows epsilon edges"""
+        tg, kind = prj.resolve_call(fi, call)
+        for t in tg:
+            todo, seen = [t], set()
+            while todo:
+                f2 = todo.pop()
+                if f2.qual in seen:
+                    continue
+                seen.add(f2.qual)
+                if any(isinstance(x, ast.Attribute) and x.attr == "epsilon_transitions" for x in f2.walk()):
+                    return True
+                for c2 in f2.calls():
+                    todo.extend(x for x in prj.resolve_call(f2, c2)[0] if x.module.name.startswith(GSM))
+        return False
     # (a) start closure
-    starts = [n for n in fi.walk() if isinstance(n, ast.Call) and attr_chain(n.func) == "epsilon_closure"
+    starts = [n for n in fi.walk() if isinstance(n, ast.Call) and closure_like(n)
               and n.args and unparse(n.args[0]) == "nfa.start"]
     if starts:
-        ctx.ok("R4", fi.site(starts[0]), "nfa_to_dfa: initial set = epsilon_closure(nfa.start)")
+        ctx.ok("R4", fi.site(starts[0]), f"nfa_to_dfa: initial set = {unparse(starts[0].func)}(nfa.start) (an epsilon-closure function, see R2)")
     else:
-        ctx.viol("R4", "nfa_to_dfa/start-closure", fi.site(), "the initial state set is not epsilon_closure(nfa.start)")
+        ctx.viol("R4", "nfa_to_dfa/start-closure", fi.site(), "the initial state set is not an epsilon closure of nfa.start")
     # (b) accepting test
     accs = [n for n in fi.walk() if isinstance(n, ast.If) and isinstance(n.test, ast.Compare) and len(n.test.ops) == 1
             and isinstance(n.test.ops[0], ast.In) and unparse(n.test.left) == "nfa.accepting"]
@@ -292,16 +332,27 @@ def rule_R4(ctx, prj: Project):
         ctx.viol("R4", "nfa_to_dfa/accepting", fi.site(), "accepting DFA states are not selected by `nfa.accepting in T`")
     # (c) target of a transition
     tgt_ok = False
-    for n in fi.walk():
-        if isinstance(n, ast.Call) and attr_chain(n.func) == "epsilon_closure" and n.args:
-            inner = expand(fi, n.args[0])
-            if isinstance(inner, ast.Call) and attr_chain(inner.func) == "move" and len(inner.args) == 2:
-                loopvars = [unparse(l.target) for l in enclosing(fi, n, ast.For)]
-                if unparse(inner.args[1]) in loopvars:
-                    tgt_ok = True
-                    ctx.ok("R4", fi.site(n), f"nfa_to_dfa: target set = epsilon_closure(move({unparse(inner.args[0])}, {unparse(inner.args[1])}))")
+    moves = [n for n in fi.walk() if isinstance(n, ast.Call) and attr_chain(n.func) == "move" and len(n.args) == 2]
+    for mv_call in moves:
+        loopvars = [unparse(l.target) for l in enclosing(fi, mv_call, ast.For)]
+        if unparse(mv_call.args[1]) not in loopvars:
+            continue
+        # the moved set must pass through an epsilon-closure function: directly as its
+        # argument, or element-wise in a loop over move(...)
+        par = fi.parents.get(mv_call)
+        direct = isinstance(par, ast.Call) and closure_like(par)
+        via_name = False
+        holder = fi.parents.get(mv_call)
+        if isinstance(holder, ast.Assign) and isinstance(holder.targets[0], ast.Name):
+            nm = holder.targets[0].id
+            via_name = any(isinstance(c, ast.Call) and closure_like(c) and any(unparse(a) == nm for a in c.args) for c in fi.calls())
+        loop_over = isinstance(par, ast.For) and par.iter is mv_call and any(
+            isinstance(c, ast.Call) and closure_like(c) and any(unparse(a) == unparse(par.target) for a in c.args) for c in ast.walk(par))
+        if direct or via_name or loop_over:
+            tgt_ok = True
+            ctx.ok("R4", fi.site(mv_call), f"nfa_to_dfa: target set = epsilon closure of move({unparse(mv_call.args[0])}, {unparse(mv_call.args[1])})")
     if not tgt_ok:
-        ctx.viol("R4", "nfa_to_dfa/target", fi.site(), "transition targets are not epsilon_closure(move(T, symbol)) for the loop's symbol")
+        ctx.viol("R4", "nfa_to_dfa/target", fi.site(), "transition targets are not the epsilon closure of move(T, symbol) for the loop's symbol")
     # (d) loop over state_set_transitions(T)
     loops = [l for l in fi.walk() if isinstance(l, ast.For)]
     it_ok = any("state_set_transitions(" in unparse(expand(fi, l.iter)) for l in loops)
